@@ -98,6 +98,11 @@ CHECKS = {
             "Random interactive sessions of 5..25 actions (fg/bg pipelines, Ctrl-Z, Ctrl-C, fg, bg, external STOP/CONT/KILL/TERM, finishing jobs, jobs, plain lines), a quarter of them with the SIGCHLD handler enabled; terminal ownership sampled at every prompt.",
             "bounded polls for asynchronous effects, expiry = inconclusive; `jobs` asked twice before judging",
             "DESIGN.md 3 C07"),
+    "C05": ("exploration",
+            "runtime monitoring in three layers: exhaustive in-process sweep of all pure stages under catch_unwind with a step budget on the rewrite loops (hook), generated/mutated lines through the real binary (two builds) under a watchdog with /proc hang diagnosis and a sentinel command, random key sequences through a pty followed by a sentinel command",
+            "All strings of length<=5 (thorough 6) over a 14-symbol special alphabet and all sequences of <=4 (5) fragments of two further alphabets go through every pure stage; 5k (60k) generated lines and 96 (1000) pty sessions go through the real shell.",
+            "step budget 2000/3000 iterations = non-termination; hang is a violation only with a /proc diagnosis",
+            "DESIGN.md 3 C05"),
 }
 
 NOT_YET = "check not built yet (work in progress); runtime monitoring is applicable and planned, see DESIGN.md section 3"
